@@ -4,6 +4,12 @@
      sa (STANDBY_ALONE with a known peer is never left), ia (AdjustPriority outside the m.mu section),
      so (a heartbeat older than one already handled is still handled), sl (a heartbeat built before the
      receiver's last peer-loss detection is still handled)
+   argv[2] = the implementation's output (one line per case).  It is used for ONE thing: outside the no-overflow
+   domain (priority >= 2^31 or decrement * #interfaces >= 2^31) the property does not say what the effective
+   priority is, so the model's overflow policy c_over (down count -> priority) is read off the implementation:
+   before an interface op on such a node the driver records  count -> priority  from the implementation's token
+   for that step and checks admissibility (a uint32, and ONE value per count: "priority is a function of the
+   down count"); inadmissible => the line ends with INADMISSIBLE:<why>.
    case:  idA prioA preA decA nifsA idB prioB preB decB nifsB op*
           id = <n> (node id "node-%05d") or s:<dotted bytes> / s:e (the id string itself)
    ops:   st<w> sd<w> dl<w>:<i> dr<w>:<i> pl<w> pt<w> dn<w>:<k> up<w>:<k> de<w>:<k> sw<w>:<f> rs<w> SW<w>:<f>
@@ -74,20 +80,47 @@ let () =
       | "def" :: ds when ds <> [] && List.for_all (fun d -> List.mem d all) ds -> (mk ds, mkf ds)
       | _ -> failwith ("unknown variant " ^ vname) in
   let lines = read_lines Sys.argv.(1) in
+  let impl_lines =
+    if Array.length Sys.argv > 2 && Sys.argv.(2) <> "-" then Array.of_list (read_lines Sys.argv.(2)) else [||] in
+  let lineno = ref (-1) in
   List.iter (fun line ->
+    incr lineno;
+    let impl_toks =
+      if !lineno < Array.length impl_lines then Array.of_list (tokens impl_lines.(!lineno)) else [||] in
     match tokens line with
     | ia :: pa :: ra :: da :: na :: ib :: pb :: rb :: db :: nb :: ops ->
       (try
-        let mkc i p r d n = { c_id = id_of_token i; c_prio = z_of_int (int_of_string p);
-                              c_preempt = (r = "1"); c_dec = z_of_int (int_of_string d);
-                              c_nifs = nat_of_int (int_of_string n) } in
-        let cs = (mkc ia pa ra da na, mkc ib pb rb db nb) in
+        let tbl_a : (int, int) Hashtbl.t = Hashtbl.create 7 and tbl_b : (int, int) Hashtbl.t = Hashtbl.create 7 in
+        let inadmissible = ref "" in
+        let over tbl z = match Hashtbl.find_opt tbl (int_of_z z) with Some e -> z_of_int e | None -> Z0 in
+        let mkc tbl i p r d n = { c_id = id_of_token i; c_prio = z_of_int (int_of_string p);
+                                  c_preempt = (r = "1"); c_dec = z_of_int (int_of_string d);
+                                  c_nifs = nat_of_int (int_of_string n); c_over = over tbl } in
+        let cs = (mkc tbl_a ia pa ra da na, mkc tbl_b ib pb rb db nb) in
+        (* overflow policy read off the implementation (see header) *)
+        let learn w step =
+          let c = (match w with A -> fst cs | B -> snd cs) in
+          if not (cfg_smallb c) && step < Array.length impl_toks then
+            (match String.split_on_char '|' impl_toks.(step) with
+             | na :: nb :: _ ->
+               (match String.split_on_char ',' (match w with A -> na | B -> nb) with
+                | [_; eff; _; _; _; cnt; _] ->
+                  (match int_of_string_opt eff, int_of_string_opt cnt with
+                   | Some e, Some k ->
+                     let tbl = (match w with A -> tbl_a | B -> tbl_b) in
+                     if e < 0 || e > 4294967295 then inadmissible := "priority-not-a-uint32"
+                     else (match Hashtbl.find_opt tbl k with
+                           | Some e' when e' <> e -> inadmissible := "priority-not-a-function-of-the-down-count"
+                           | _ -> Hashtbl.replace tbl k e)
+                   | _ -> ())
+                | _ -> ())
+             | _ -> ()) in
         (match ops with
          | g2 :: ops when String.length g2 > 3 && String.sub g2 0 3 = "G2:" ->
            (* two groups: two instances of the model *)
            let p = Array.of_list (String.split_on_char ',' (String.sub g2 3 (String.length g2 - 3))) in
            if Array.length p <> 8 then failwith "bad G2";
-           let cs2 = (mkc ia p.(0) p.(1) p.(2) p.(3), mkc ib p.(4) p.(5) p.(6) p.(7)) in
+           let cs2 = (mkc (Hashtbl.create 1) ia p.(0) p.(1) p.(2) p.(3), mkc (Hashtbl.create 1) ib p.(4) p.(5) p.(6) p.(7)) in
            let s1 = ref (init_pair cs) and s2 = ref (init_pair cs2) in
            let t1 = ref [] and t2 = ref [] in
            let stl = ref sinit in
@@ -131,10 +164,16 @@ let () =
         let fe e = let (s', t) = fstep v cs !s e in s := s'; ts := !ts @ t; t in
         let note e = let (_, tt) = sdecide sf !stl !s.f_p e in stl := tt in
         let rec finish w = if thrs_of w !s <> [] then (ignore (fe (FMicro (w, O))); finish w) in
+        let stepno = ref 0 in
         List.iter (fun tok ->
-          ts := []; probe := [];
+          ts := []; probe := []; incr stepno;
           if String.length tok < 3 then failwith ("bad op " ^ tok);
           let w = who_of tok.[2] in
+          (match String.sub tok 0 2 with
+           | "dn" | "up" | "de" | "xa" | "xu" ->
+             (* only notifications for tracked interfaces reach AdjustPriority *)
+             if tracked (match w with A -> fst cs | B -> snd cs) (nat_of_int (arg tok)) then learn w !stepno
+           | _ -> ());
           (match String.sub tok 0 2 with
            | "pD" ->
              if thrs_of w !s <> [] then failwith "two parked calls";
@@ -172,6 +211,6 @@ let () =
                     ignore (fe (FCoarse e')); stl := ssync tt !s.f_p) (events_of_token tok));
           stl := ssync !stl !s.f_p;
           out := show_p !s.f_p !probe !ts :: !out) ops;
-        print_endline (String.concat " " (List.rev !out)))
+        print_endline (String.concat " " (List.rev !out) ^ (if !inadmissible = "" then "" else " INADMISSIBLE:" ^ !inadmissible)))
       with Failure m -> print_endline ("badcase " ^ m))
     | _ -> print_endline "badline") lines
